@@ -37,6 +37,7 @@ Line numbers of the comprehension are those of the loop, so reports still point 
 from __future__ import annotations
 
 import ast
+import copy
 from typing import List, Optional
 
 
@@ -68,6 +69,8 @@ def _as_comprehension(loop: ast.For, acc: str, kind: str) -> Optional[ast.expr]:
         if isinstance(node, ast.For):
             if node.orelse or len(node.body) != 1:
                 return None
+            if isinstance(node.iter, (ast.Tuple, ast.List)):
+                return None          # a loop over a display is unrolled exactly by the path explorer: keep its paths
             gens.append(ast.comprehension(target=node.target, iter=node.iter, ifs=[], is_async=0))
             node = node.body[0]
         elif isinstance(node, ast.If):
@@ -287,10 +290,378 @@ def _index_scan(init: ast.stmt, loop: ast.stmt):
     return i, xs, P, param
 
 
+def _names_stored(nodes) -> set:
+    out = set()
+    for b in nodes:
+        for n in ast.walk(b):
+            if isinstance(n, ast.Name) and isinstance(n.ctx, (ast.Store, ast.Del)):
+                out.add(n.id)
+            elif isinstance(n, (ast.FunctionDef, ast.ClassDef)):
+                out.add(n.name)
+    return out
+
+def _names_loaded(node) -> set:
+    return {n.id for n in ast.walk(node) if isinstance(n, ast.Name)}
+
+def _has_own_continue(body) -> bool:
+    """a `continue` that belongs to this loop (not to a nested one)"""
+    def rec(stmts):
+        for s in stmts:
+            if isinstance(s, ast.Continue):
+                return True
+            if isinstance(s, (ast.For, ast.While, ast.AsyncFor, ast.FunctionDef, ast.ClassDef, ast.AsyncFunctionDef)):
+                if isinstance(s, (ast.For, ast.While)) and rec(s.orelse):
+                    return True
+                continue
+            for f in ("body", "orelse", "finalbody", "handlers"):
+                sub = getattr(s, f, None)
+                if isinstance(sub, list):
+                    items = []
+                    for x in sub:
+                        items.extend(x.body if isinstance(x, ast.ExceptHandler) else [x])
+                    if rec([x for x in items if isinstance(x, ast.stmt)]):
+                        return True
+            if isinstance(s, ast.Match):
+                for c in s.cases:
+                    if rec(c.body):
+                        return True
+        return False
+    return rec(body)
+
+def _plus(e, k):
+    if isinstance(e, ast.Constant) and isinstance(e.value, int) and not isinstance(e.value, bool):
+        v = e.value + k
+        return ast.Constant(value=v) if v >= 0 else ast.UnaryOp(op=ast.USub(), operand=ast.Constant(value=-v))
+    if isinstance(e, ast.BinOp) and isinstance(e.op, ast.Sub) and isinstance(e.right, ast.Constant) and e.right.value == k:
+        return e.left                      # (n - 1) + 1
+    return ast.BinOp(left=e, op=ast.Add() if k > 0 else ast.Sub(), right=ast.Constant(value=abs(k)))
+
+
+def while_index_to_for(init: ast.stmt, loop: ast.stmt, later: List[ast.stmt]) -> Optional[ast.For]:
+    """i = A; while i < B: BODY; i += 1      ->  for i in range(A, B): BODY
+       i = A; while i >= B: BODY; i -= 1     ->  for i in range(A, B - 1, -1): BODY          (also `> B`, `<= B`)
+    when i is written nowhere else in the loop, B's variables are not written in it, the step is the last statement, no
+    `continue` of this loop skips it, there is no else clause, and i is not read after the loop (a for loop leaves the last
+    index in i, the while loop the first one that failed the test)."""
+    if not (isinstance(init, ast.Assign) and len(init.targets) == 1 and isinstance(init.targets[0], ast.Name)):
+        return None
+    i = init.targets[0].id
+    if not (isinstance(loop, ast.While) and not loop.orelse and len(loop.body) >= 2):
+        return None
+    t = loop.test
+    if not (isinstance(t, ast.Compare) and len(t.ops) == 1 and isinstance(t.left, ast.Name) and t.left.id == i):
+        return None
+    def is_step(x):
+        return isinstance(x, ast.AugAssign) and isinstance(x.target, ast.Name) and x.target.id == i \
+            and isinstance(x.value, ast.Constant) and x.value.value == 1 and isinstance(x.op, (ast.Add, ast.Sub))
+    steps = [k for k, x in enumerate(loop.body) if is_step(x)]
+    if len(steps) != 1:
+        return None
+    step = loop.body[steps[0]]
+    # the step may stand anywhere at the top of the body as long as nothing after it looks at the index
+    after = loop.body[steps[0] + 1:]
+    if any(isinstance(n, ast.Name) and n.id == i for b in after for n in ast.walk(b)):
+        return None
+    body = loop.body[:steps[0]] + after
+    if not body:
+        return None
+    up = isinstance(step.op, ast.Add)
+    op, bound = t.ops[0], t.comparators[0]
+    if up and isinstance(op, ast.Lt):
+        stop = bound
+    elif up and isinstance(op, ast.LtE):
+        stop = _plus(bound, 1)
+    elif not up and isinstance(op, ast.GtE):
+        stop = _plus(bound, -1)
+    elif not up and isinstance(op, ast.Gt):
+        stop = bound
+    else:
+        return None
+    if i in _names_stored(body) or (_names_loaded(bound) & (_names_stored(body) | {i})) or _has_own_continue(body):
+        return None
+    # calls in the bound that could observe the body's effects (len(xs) while the body appends to xs): the bound must be
+    # re-evaluated each time round a while loop but only once by range() - refuse when the body mutates a name the bound reads
+    mutated = set()
+    for b in body:
+        for n in ast.walk(b):
+            if isinstance(n, ast.Call) and isinstance(n.func, ast.Attribute) and isinstance(n.func.value, ast.Name) \
+                    and n.func.attr in ("append", "extend", "pop", "remove", "insert", "clear", "sort", "reverse", "add", "discard", "update"):
+                mutated.add(n.func.value.id)
+            if isinstance(n, (ast.Subscript, ast.Attribute)) and isinstance(n.ctx, (ast.Store, ast.Del)):
+                root = n
+                while isinstance(root, (ast.Subscript, ast.Attribute)):
+                    root = root.value
+                if isinstance(root, ast.Name):
+                    mutated.add(root.id)
+    if _names_loaded(bound) & mutated:
+        return None
+    for s in later:
+        if i in _names_loaded(s):
+            # read after the loop: only fine if it is assigned first - keep it simple and refuse
+            return None
+    args = [init.value, stop] if up else [init.value, stop, ast.UnaryOp(op=ast.USub(), operand=ast.Constant(value=1))]
+    if up and isinstance(init.value, ast.Constant) and init.value.value == 0:
+        args = [stop]
+    new = ast.For(target=ast.Name(id=i, ctx=ast.Store()), iter=ast.Call(func=ast.Name(id="range", ctx=ast.Load()), args=args, keywords=[]),
+                  body=body, orelse=[], type_comment=None)
+    ast.copy_location(new, loop)
+    ast.fix_missing_locations(new)
+    return new
+
+def _is_len_of(e, dump):
+    return isinstance(e, ast.Call) and isinstance(e.func, ast.Name) and e.func.id == "len" and len(e.args) == 1 and not e.keywords \
+        and ast.dump(e.args[0]) == dump
+
+def range_index_to_elements(loop: ast.stmt, env_lens=None) -> Optional[ast.For]:
+    """for i in range(len(xs)): ... xs[i] ...        ->  for i, x in enumerate(xs): ... x ...     (for x in xs when i is not used otherwise)
+       for i in range(a, len(xs)): ... xs[i] ...     ->  for i, x in enumerate(xs[a:], a)         (for x in xs[a:] ...)
+       for i in range(len(xs) - 1, -1, -1): ... xs[i] ...  ->  for x in xs[::-1]                  (only when i is not used otherwise)
+    when xs is a name or attribute chain that the body does not write or mutate."""
+    if not (isinstance(loop, ast.For) and not loop.orelse and isinstance(loop.target, ast.Name) and isinstance(loop.iter, ast.Call)
+            and isinstance(loop.iter.func, ast.Name) and loop.iter.func.id == "range" and not loop.iter.keywords):
+        return None
+    i = loop.target.id
+    a = loop.iter.args
+    # which sequence? the one subscripted by i in the body
+    subs = [n for b in loop.body for n in ast.walk(b) if isinstance(n, ast.Subscript) and isinstance(n.slice, ast.Name) and n.slice.id == i
+            and isinstance(n.ctx, ast.Load)]
+    if not subs:
+        return None
+    dumps = {ast.dump(n.value) for n in subs}
+    if len(dumps) != 1:
+        return None
+    xs = subs[0].value
+    d = ast.dump(xs)
+    root = xs
+    while isinstance(root, ast.Attribute):
+        root = root.value
+    if not isinstance(root, ast.Name):
+        return None
+    # not written / mutated in the body
+    for b in loop.body:
+        for n in ast.walk(b):
+            if isinstance(n, (ast.Subscript, ast.Attribute)) and isinstance(n.ctx, (ast.Store, ast.Del)) and ast.dump(n.value) == d:
+                return None
+            if isinstance(n, ast.Call) and isinstance(n.func, ast.Attribute) and ast.dump(n.func.value) == d and \
+                    n.func.attr in ("append", "extend", "pop", "remove", "insert", "clear", "sort", "reverse"):
+                return None
+            if isinstance(n, ast.Name) and isinstance(n.ctx, ast.Store) and n.id == root.id:
+                return None
+    kind = None
+    start = None
+    if len(a) == 1 and _is_len_of(a[0], d):
+        kind, start = "up", None
+    elif len(a) == 2 and _is_len_of(a[1], d):
+        kind, start = "up", a[0]
+    elif len(a) == 3 and isinstance(a[0], ast.BinOp) and isinstance(a[0].op, ast.Sub) and _is_len_of(a[0].left, d) \
+            and isinstance(a[0].right, ast.Constant) and a[0].right.value == 1 \
+            and ast.dump(a[1]) == ast.dump(ast.UnaryOp(op=ast.USub(), operand=ast.Constant(value=1))) \
+            and ast.dump(a[2]) == ast.dump(ast.UnaryOp(op=ast.USub(), operand=ast.Constant(value=1))):
+        kind = "down"
+    else:
+        return None
+    elem = "__sa_elem_" + i
+    class Repl(ast.NodeTransformer):
+        def visit_Subscript(self, n):
+            if isinstance(n.slice, ast.Name) and n.slice.id == i and isinstance(n.ctx, ast.Load) and ast.dump(n.value) == d:
+                return ast.copy_location(ast.Name(id=elem, ctx=ast.Load()), n)
+            return self.generic_visit(n)
+    body = [Repl().visit(copy.deepcopy(b)) for b in loop.body]
+    uses_i = any(isinstance(n, ast.Name) and n.id == i for b in body for n in ast.walk(b))
+    if kind == "down":
+        if uses_i:
+            return None
+        it = ast.Subscript(value=xs, slice=ast.Slice(lower=None, upper=None, step=ast.UnaryOp(op=ast.USub(), operand=ast.Constant(value=1))), ctx=ast.Load())
+        target = ast.Name(id=elem, ctx=ast.Store())
+    else:
+        seq = xs if start is None else ast.Subscript(value=xs, slice=ast.Slice(lower=start, upper=None, step=None), ctx=ast.Load())
+        if uses_i:
+            it = ast.Call(func=ast.Name(id="enumerate", ctx=ast.Load()), args=[seq] + ([start] if start is not None else []), keywords=[])
+            target = ast.Tuple(elts=[ast.Name(id=i, ctx=ast.Store()), ast.Name(id=elem, ctx=ast.Store())], ctx=ast.Store())
+        else:
+            it = seq
+            target = ast.Name(id=elem, ctx=ast.Store())
+    new = ast.For(target=target, iter=it, body=body, orelse=[], type_comment=None)
+    ast.copy_location(new, loop)
+    ast.fix_missing_locations(new)
+    return new
+
+
+
+def _continue_guards(body: List[ast.stmt]) -> List[ast.stmt]:
+    """inside a loop body:   if C: continue          ->   if not C:
+                             REST                              REST
+    (only for an `if` without else whose body is the single `continue`; applied from the top of the body downwards)"""
+    for k, s in enumerate(body):
+        if isinstance(s, ast.If) and not s.orelse and len(s.body) == 1 and isinstance(s.body[0], ast.Continue) and k + 1 < len(body):
+            rest = _continue_guards(body[k + 1:])
+            neg = ast.UnaryOp(op=ast.Not(), operand=s.test)
+            new = ast.If(test=neg, body=rest, orelse=[])
+            ast.copy_location(new, s)
+            ast.copy_location(neg, s.test)
+            ast.fix_missing_locations(new)
+            return body[:k] + [new]
+        if isinstance(s, (ast.Continue, ast.Break, ast.Return, ast.Raise)):
+            break
+    return body
+
+
+def _any_loop(loop: ast.stmt) -> Optional[ast.If]:
+    """for x in XS:                       ->   if any(C for x in XS): BODY  [else: ELSE]
+           if C: BODY; break
+       [else: ELSE]
+    when BODY does not mention x (the first element that satisfies C only decides *whether* BODY runs)"""
+    if not (isinstance(loop, ast.For) and isinstance(loop.target, ast.Name) and len(loop.body) == 1):
+        return None
+    first = loop.body[0]
+    if not (isinstance(first, ast.If) and not first.orelse and len(first.body) >= 2 and isinstance(first.body[-1], ast.Break)):
+        return None
+    x = loop.target.id
+    body = first.body[:-1]
+    if any(isinstance(n, ast.Name) and n.id == x for b in body for n in ast.walk(b)):
+        return None
+    if any(isinstance(n, (ast.Break, ast.Continue)) for b in body for n in ast.walk(b)):
+        return None
+    gen = ast.GeneratorExp(elt=first.test, generators=[ast.comprehension(target=loop.target, iter=loop.iter, ifs=[], is_async=0)])
+    test = ast.Call(func=ast.Name(id="any", ctx=ast.Load()), args=[gen], keywords=[])
+    new = ast.If(test=test, body=body, orelse=list(loop.orelse))
+    ast.copy_location(new, loop)
+    ast.fix_missing_locations(new)
+    return new
+
+
+def _simple_subject(e: ast.expr) -> bool:
+    if isinstance(e, ast.Name):
+        return True
+    if isinstance(e, ast.Attribute):
+        return _simple_subject(e.value)
+    if isinstance(e, ast.Tuple):
+        return all(_simple_subject(x) or isinstance(x, (ast.Constant, ast.Compare, ast.BoolOp, ast.UnaryOp, ast.Call)) for x in e.elts)
+    return False
+
+
+def _pattern_test(p: ast.pattern, subject: ast.expr) -> Optional[ast.expr]:
+    """the boolean expression `subject` must satisfy to match pattern `p` - None for patterns that bind names or need a
+    runtime protocol this rewrite does not spell out"""
+    T_ = ast.Constant(value=True)
+    if isinstance(p, ast.MatchValue):
+        return ast.Compare(left=subject, ops=[ast.Eq()], comparators=[p.value])
+    if isinstance(p, ast.MatchSingleton):
+        if p.value is True or p.value is False or p.value is None:
+            return ast.Compare(left=subject, ops=[ast.Is()], comparators=[ast.Constant(value=p.value)])
+        return None
+    if isinstance(p, ast.MatchAs):
+        if p.pattern is None and p.name is None:
+            return T_
+        return None
+    if isinstance(p, ast.MatchOr):
+        parts = [_pattern_test(q, subject) for q in p.patterns]
+        if any(x is None for x in parts):
+            return None
+        return ast.BoolOp(op=ast.Or(), values=parts)
+    if isinstance(p, ast.MatchClass):
+        if p.patterns:
+            return None
+        tests = [ast.Call(func=ast.Name(id="isinstance", ctx=ast.Load()), args=[subject, p.cls], keywords=[])]
+        for attr, q in zip(p.kwd_attrs, p.kwd_patterns):
+            t = _pattern_test(q, ast.Attribute(value=subject, attr=attr, ctx=ast.Load()))
+            if t is None:
+                return None
+            if not (isinstance(t, ast.Constant) and t.value is True):
+                tests.append(t)
+        return tests[0] if len(tests) == 1 else ast.BoolOp(op=ast.And(), values=tests)
+    if isinstance(p, ast.MatchSequence):
+        if not isinstance(subject, ast.Tuple) or len(subject.elts) != len(p.patterns) or \
+                any(isinstance(q, ast.MatchStar) for q in p.patterns):
+            return None
+        tests = []
+        for q, el in zip(p.patterns, subject.elts):
+            # `case (True, False)` on a tuple of conditions compares by equality: True == 1; the elements here must be
+            # booleans for `is`-free reading - comparisons, not/and/or, bool(...) - otherwise refuse
+            if isinstance(q, ast.MatchSingleton) and q.value in (True, False):
+                if not isinstance(el, (ast.Compare, ast.BoolOp)) and not (isinstance(el, ast.UnaryOp) and isinstance(el.op, ast.Not)) \
+                        and not (isinstance(el, ast.Call) and isinstance(el.func, ast.Name) and el.func.id in ("bool", "isinstance", "any", "all")):
+                    return None
+                tests.append(el if q.value else ast.UnaryOp(op=ast.Not(), operand=el))
+                continue
+            t = _pattern_test(q, el)
+            if t is None:
+                return None
+            if not (isinstance(t, ast.Constant) and t.value is True):
+                tests.append(t)
+        if not tests:
+            return T_
+        return tests[0] if len(tests) == 1 else ast.BoolOp(op=ast.And(), values=tests)
+    return None
+
+
+def _match_to_if(m: ast.Match) -> Optional[ast.stmt]:
+    """match S: case P1 [if g1]: B1 ... case _: Bn     ->     if t1: B1 elif ... else: Bn
+    for value / singleton / class (keyword sub-patterns) / or / wildcard patterns and fixed-length sequence patterns over a
+    tuple display; the subject must be an expression that can be re-evaluated (names, attribute chains, tuples of those)"""
+    if not _simple_subject(m.subject):
+        return None
+    arms = []
+    for case in m.cases:
+        t = _pattern_test(case.pattern, m.subject)
+        if t is None:
+            return None
+        if case.guard is not None:
+            t = case.guard if (isinstance(t, ast.Constant) and t.value is True) else ast.BoolOp(op=ast.And(), values=[t, case.guard])
+        arms.append((t, case.body))
+    node = None
+    for t, body in reversed(arms):
+        if isinstance(t, ast.Constant) and t.value is True:
+            node_body = body
+            node = ("else", node_body)
+            continue
+        orelse = []
+        if node is not None:
+            orelse = node[1] if node[0] == "else" else [node[1]]
+        new = ast.If(test=t, body=body, orelse=orelse)
+        node = ("if", new)
+    if node is None:
+        return None
+    if node[0] == "else":
+        new = ast.If(test=ast.Constant(value=True), body=node[1], orelse=[])
+    else:
+        new = node[1]
+    ast.copy_location(new, m)
+    ast.fix_missing_locations(new)
+    return new
+
+
 class _Desugar(ast.NodeTransformer):
+    def visit_Match(self, node):
+        self.generic_visit(node)
+        r = _match_to_if(node)
+        return r if r is not None else node
+
     def _block(self, stmts: List[ast.stmt]) -> List[ast.stmt]:
         out: List[ast.stmt] = []
         i = 0
+        # index loops first: `i = a; while i < b: ...; i += 1` is the for loop over range(a, b) it spells out, and a for loop over
+        # range(len(xs)) that only reads xs[i] is the loop over the elements
+        pre: List[ast.stmt] = []
+        k = 0
+        while k < len(stmts):
+            s = stmts[k]
+            if k + 1 < len(stmts):
+                r = while_index_to_for(s, stmts[k + 1], stmts[k + 2:])
+                if r is not None:
+                    pre.append(range_index_to_elements(r) or r)
+                    k += 2
+                    continue
+            if isinstance(s, ast.For):
+                r = range_index_to_elements(s)
+                if r is not None:
+                    s = r
+                a = _any_loop(s)
+                if a is not None:
+                    s = a
+            pre.append(s)
+            k += 1
+        stmts = pre
         while i < len(stmts):
             s = stmts[i]
             # prefix scan by index:  i = 0; while i < len(xs) and P(xs[i]): i += 1
@@ -386,6 +757,8 @@ class _Desugar(ast.NodeTransformer):
 
     def generic_visit(self, node):
         super().generic_visit(node)
+        if isinstance(node, (ast.For, ast.While)):
+            node.body = _continue_guards(list(node.body))
         for fieldname in ("body", "orelse", "finalbody"):
             blk = getattr(node, fieldname, None)
             if isinstance(blk, list) and blk and isinstance(blk[0], ast.stmt):
